@@ -73,6 +73,7 @@ def is_numeric(t):
     return t[0] in ('int', 'lin', 'len', 'at', 'be', 'le', 'band', 'bor', 'bxor', 'shl', 'shr', 'trunc') or NUMERIC.get(t, False)
 
 
+BOUNDS = {}     # symbolic integer term -> (lo, hi)
 KNOWN_LEN = {}  # symbolic sequence term -> constant length (e.g. octets of an address)
 NUMERIC = {}   # term -> True for symbolic atoms known to be integers (params/fields of int type)
 TYPES = {}     # term -> rust type string (lifetimes stripped) for symbolic atoms
